@@ -154,6 +154,18 @@ pub fn resolve_constant(
         &ast_const.expr)?;
 
 
+    // On the final iteration, a failed constraint is an error,
+    // as it is for constants that do not depend on addresses
+    if ctx.is_last_iteration
+    {
+        if let expr::Value::FailedConstraint(ref msg) = value
+        {
+            report.message(msg.clone());
+            return Err(());
+        }
+    }
+
+
     let symbol = defs.symbols.get_mut(item_ref);
     let prev_value = symbol.value.clone();
     symbol.value = value;
